@@ -120,6 +120,12 @@ static void named_calls_check(void)
     { uint32_t w[4]; memcpy(w, K, 16);
 #define NW1(LEN, SEED) do { uint32_t g_ = spifhash_jenkins32(k, LEN, SEED), e_ = ref_lookup2_words(w, LEN, SEED); if (g_ != e_) FAIL("spifhash_jenkins32", "model:value", "constant length", "spifhash_jenkins32(key, " #LEN ", " #SEED ") called by name gives 0x%08x, reference 0x%08x", g_, e_); } while (0)
       NW1(0, 0); NW1(1, 0); NW1(2, 0); NW1(3, 0); NW1(4, 0); NW1(0, 1); NW1(3, 0xffffffffu); NW1(sizeof K / sizeof(uint32_t), 0); }
+    /* the same call again after the key's bytes changed (same pointer, length and seed): the hash is a function of the bytes, not of the pointer */
+#define NR1(fn, ref) do { uint32_t h1_ = fn(k, 12, 7); k[5] ^= 0x5a; uint32_t h2_ = fn(k, 12, 7), e_ = ref(k, 12, 7); k[5] ^= 0x5a; \
+        if (h2_ != e_) FAIL(#fn, "model:value", "key changed between two calls", #fn "(key, 12, 7) after one byte of the key changed gives 0x%08x (0x%08x before the change), reference 0x%08x", h2_, h1_, e_); } while (0)
+    NR1(spifhash_jenkins, ref_lookup2); NR1(spifhash_jenkinsLE, ref_lookup2); NR1(spifhash_rotating, ref_rotating); NR1(spifhash_one_at_a_time, ref_oaat); NR1(spifhash_fnv, ref_fnv1a);
+    { uint32_t w2[4]; uint32_t h1 = spifhash_jenkins32(k, 3, 7); k[5] ^= 0x5a; uint32_t h2 = spifhash_jenkins32(k, 3, 7); memcpy(w2, k, 16); uint32_t e = ref_lookup2_words(w2, 3, 7); k[5] ^= 0x5a;
+      if (h2 != e) FAIL("spifhash_jenkins32", "model:value", "key changed between two calls", "spifhash_jenkins32(key, 3, 7) after one byte of the key changed gives 0x%08x (0x%08x before the change), reference 0x%08x", h2, h1, e); }
     free(k);
 }
 static void case_fn(uint64_t idx, void *ctx)
